@@ -286,6 +286,9 @@ class DMLMixin:
             order.sort(key=lambda a: [s.alias for s in srcs].index(a))
             for a in order:
                 self._write_guard(sc.tables[a], sess)
+            if getattr(u, '_plan', None) is None:
+                self.check_names([u.where, [e for _, _, e in u.sets], [s.on_node for s in srcs if s.on_node is not None]], X, sc)
+                u._plan = True
             rowmaps = list(self.join_rows(srcs, u.where, X, sc))
             if u.order_by or u.limit is not None:
                 if len(srcs) != 1:
@@ -368,6 +371,9 @@ class DMLMixin:
                     aliases.append(s.alias)
             for a in aliases:
                 self._write_guard(sc.tables[a], sess)
+            if getattr(d, '_plan', None) is None:
+                self.check_names([d.where, [s.on_node for s in srcs if s.on_node is not None]], X, sc)
+                d._plan = True
             rowmaps = list(self.join_rows(srcs, d.where, X, sc))
             if d.order_by or d.limit is not None:
                 if len(srcs) != 1:
